@@ -1146,3 +1146,144 @@ def tokens_section(tier, seed, limits=False):
                      'agree up to the TEq normal form (split literals merged, parentheses around split literals dropped); '
                      'non-trivial = values whose raw token sequence differs between layouts'}
     return stats, mism, fails
+
+
+# ---------------------------------------------------------------------------------------------
+# comments on values whose printer is registered lazily by name, printed FIRST in a fresh interpreter (C09)
+
+FRESH_COMMENT = r'''
+import sys, json, warnings, ast
+sys.path.insert(0, %r)
+import prettyprinter as pp
+import uuid, enum, pathlib, functools, collections, datetime, types
+class Color(enum.Enum):
+    RED = 1
+cases = {
+  'uuid': lambda: uuid.UUID(int=7), 'enum': lambda: Color.RED, 'path': lambda: pathlib.PurePosixPath('/a/b'),
+  'partial': lambda: functools.partial(int, base=2), 'mappingproxy': lambda: types.MappingProxyType({'a': 1}),
+  'ordereddict': lambda: collections.OrderedDict(a=1), 'datetime': lambda: datetime.date(2020, 1, 2), 'exception': lambda: ValueError('x'),
+}
+name, wrap = sys.argv[1], sys.argv[2]
+v = cases[name]()
+w = {'comment': lambda x: pp.comment(x, 'note'), 'in-list': lambda x: [pp.comment(x, 'note'), 1], 'dict-value': lambda x: {'k': pp.comment(x, 'note')},
+     'trailing': lambda x: [pp.trailing_comment(pp.comment(x, 'note'), 't')]}[wrap]
+with warnings.catch_warnings(record=True) as ws:
+    warnings.simplefilter('always')
+    first = pp.pformat(w(v))                 # the commented value is the first thing this interpreter prints
+    plain = pp.pformat(w(v) if False else {'comment': v, 'in-list': [v, 1], 'dict-value': {'k': v}, 'trailing': [v]}[wrap])
+print('@@' + json.dumps({'first': first, 'plain': plain, 'warnings': [str(x.message)[:80] for x in ws]}))
+'''
+
+
+def fresh_comment_section(tier, seed):
+    import json
+    import subprocess
+    from common import REPO
+    names = ['uuid', 'enum', 'path', 'partial', 'mappingproxy', 'ordereddict', 'datetime', 'exception']
+    wraps = ['comment', 'in-list', 'dict-value', 'trailing']
+    jobs = [(n, w) for n in names for w in (wraps if tier == 'thorough' else wraps[:3])]
+    fails, tot = [], 0
+    procs = []
+    code = FRESH_COMMENT % (REPO,)
+    pending = list(jobs)
+    results = {}
+    while pending or procs:
+        while pending and len(procs) < NCPU:
+            j = pending.pop()
+            procs.append((j, subprocess.Popen([sys.executable, '-c', code, j[0], j[1]], stdout=subprocess.PIPE, stderr=subprocess.DEVNULL, text=True)))
+        j, p = procs.pop(0)
+        out, _ = p.communicate(timeout=120)
+        for line in out.splitlines():
+            if line.startswith('@@'):
+                results[j] = json.loads(line[2:])
+    for j in jobs:
+        r = results.get(j)
+        tot += 1
+        if r is None:
+            fails.append({'kind': 'fresh-comment-crash', 'case': j})
+            continue
+        try:
+            a, b = ast_of(r['first']), ast_of(r['plain'])
+        except SyntaxError:
+            a, b = 0, 1
+        words = comment_words(r['first']) or []
+        if a != b or 'note' not in words:
+            if len(fails) < 3:
+                fails.append({'kind': 'comment-on-lazily-registered-type', 'case': list(j), 'commented_printed_first': r['first'][:300],
+                              'uncommented': r['plain'][:300], 'warnings': r['warnings']})
+    stats = {'evaluations': tot, 'distinct_nontrivial': tot, 'mismatches': 0,
+             'rule': 'comment() on values whose printer is registered lazily by qualified name (uuid, enum, pathlib, partial, mappingproxy, OrderedDict, date, exception), '
+                     'alone / in a list / as a dict value, printed as the FIRST thing in a fresh interpreter: same syntax tree as the uncommented value, comment words present'}
+    return stats, [], fails
+
+
+# ---------------------------------------------------------------------------------------------
+# C06 at the level of values: a one-line rendering of L columns is reproduced at every width and ribbon_width >= L
+
+def oneline_chunk(cases):
+    drv = _driver()
+    mism, fails = [], []
+    n = nt = 0
+    for value in cases:
+        with warnings.catch_warnings():
+            warnings.simplefilter('ignore')
+            wide = pp.pformat(value, width=100000, ribbon_width=100000)
+        if '\n' in wide:
+            continue
+        L = len(wide)
+        sets = [(4, w, r, None, 1000, 0) for (w, r) in ((L, L), (L + 1, L), (L, L + 1), (L + 3, L + 3), (2 * L, L), (L, 2 * L), (L + 40, L + 17))
+                if w >= 1 and r >= 1 and V.ribbon_ok(w, r)]
+        if not sets:
+            continue
+        nt += 1
+        sx = val_to_sx(value)
+        pieces = []
+        for st in sets:
+            p, text, kinds = impl_piece(value, st)
+            pieces.append(p)
+            n += 1
+            if text != wide and len(fails) < 3:
+                fails.append({'kind': 'value-one-line-unstable', 'value': repr(value)[:300], 'one_line': wide[:300], 'L': L, 'settings': st,
+                              'text': (text or '')[:400]})
+                break
+        g = drv.ask('(pformat %s %s)' % (sx, ' '.join(settings_sx(*st) for st in sets)))
+        if g != '(ok ' + ' '.join(pieces) + ')':
+            mism.append({'value': repr(value)[:300], 'value_sx': sx[:1500], 'settings': sets[0], 'impl': pieces[0][:800], 'model': g[:800]})
+    return n, nt, mism, fails
+
+
+def oneline_section(tier, seed):
+    rng = random.Random(seed * 41 + 23)
+    words = ['hello world', 'a b c d e f g h', 'some longer text here', 'x' * 12, "it's a \"quoted\" one", 'path/like/string/value', b'bytes with spaces ok']
+    vals = []
+    for _ in range(600 if tier == 'quick' else 6000):
+        v = rng.choice(words + [1, 2.5, None, (1, 2), 'ab'])
+        for _ in range(rng.choice([0, 1, 2, 3, 4, 6])):       # nest it: the deeper, the larger the indentation of the flat bracket
+            k = rng.random()
+            if k < 0.4:
+                v = [v]
+            elif k < 0.6:
+                v = (v,)
+            elif k < 0.75:
+                v = {'k': v}
+            elif k < 0.9:
+                v = [v, rng.choice(words + [3])]
+            else:
+                v = {rng.choice(['key', 'a']): v, 'z': 1}
+        vals.append(v)
+    vals += [V.rand_value(rng, budget=rng.choice([3, 6, 10])) for _ in range(300 if tier == 'quick' else 3000)]
+    chunks = [vals[i:i + 40] for i in range(0, len(vals), 40)]
+    tot = nt = 0
+    mism, fails = [], []
+    with mp.Pool(min(NCPU, len(chunks))) as pool:
+        for n, t, mm, ff in pool.imap_unordered(oneline_chunk, chunks):
+            tot += n
+            nt += t
+            mism.extend(mm)
+            fails.extend(ff)
+    stats = {'evaluations': tot, 'distinct_nontrivial': nt, 'values': len(vals), 'mismatches': len(mism),
+             'samples': [{'value': repr(vals[0])[:200]}, {'value': repr(vals[5])[:200]}],
+             'rule': 'strings (splittable, >= 10 characters, both quote kinds, bytes) and scalars nested 0-6 levels deep in lists / tuples / dicts, plus random value trees: '
+                     'the rendering at width 100000 is one line of L columns -> the same text at (width, ribbon) in {(L,L), (L+1,L), (L,L+1), (L+3,L+3), (2L,L), (L,2L), (L+40,L+17)}; '
+                     'the same layouts compared with the model; non-trivial = values with a one-line rendering'}
+    return stats, mism, fails
